@@ -45,7 +45,7 @@ class ResetFailed(Exception):
     pass
 
 
-def one_schedule(scn, first, k1, k2, probe=False):
+def one_schedule(scn, first, k1, k2, k3=None):
     """Execute one schedule of scenario `scn`; the application object is built
     once and brought back to the scenario's initial state by power-cycling
     both transceivers (which clears the queue and restarts the clock).
@@ -97,9 +97,13 @@ def one_schedule(scn, first, k1, k2, probe=False):
                 log.append(dict(e="stale", id=int(mt.group(1))))
     h = H(logging.WARNING)
     logging.getLogger().addHandler(h)
-    op = scn["op"]
+    ops_seq = scn["ops"] if "ops" in scn else [scn["op"]]
 
     def sock():
+        for op in ops_seq:
+            sock_one(op)
+
+    def sock_one(op):
         if op["op"] == "arrive":
             log.append(dict(e="sockStart", op="arrive", m=op["m"]))
             sim.trx[ms].data_if.sock.feed(FC.tx_datagram(0, op["m"]["fn"], op["m"]["id"], 0, bytes(148)))
@@ -117,7 +121,7 @@ def one_schedule(scn, first, k1, k2, probe=False):
         log.append(dict(e="tickEnd"))
 
     try:
-        steps = bt.run({"sock": _named(sock, "sock"), "clk": _named(clk, "clk")}, first, k1, k2)
+        steps = bt.run({"sock": _named(sock, "sock"), "clk": _named(clk, "clk")}, first, k1, k2, k3)
     finally:
         logging.getLogger().removeHandler(h)
         sim.net.hook = None
@@ -149,12 +153,16 @@ def schedules(ctx, only=None):
         scns.append(dict(run=True, q=q, fn=F0, op=dict(op="off")))
     scns.append(dict(run=False, q=[], fn=F0, op=dict(op="on")))
     scns.append(dict(run=False, q=[], fn=F0, op=dict(op="arrive", m=dict(id=3, fn=F0))))
+    # two socket-thread operations in a row racing one tick
+    scns.append(dict(run=False, q=[], fn=F0, op=dict(op="on"), ops=[dict(op="on"), dict(op="arrive", m=dict(id=3, fn=F0))]))
+    scns.append(dict(run=True, q=queues[2], fn=F0, op=dict(op="arrive"), ops=[dict(op="arrive", m=dict(id=3, fn=F0 + 1)), dict(op="off")]))
+    scns.append(dict(run=True, q=queues[1], fn=F0, op=dict(op="off"), ops=[dict(op="off"), dict(op="on"), dict(op="arrive", m=dict(id=3, fn=F0))]))
     if only:
         scns = [x for x in scns if x["op"]["op"] == only]
         if not ctx.thorough:
             scns = scns[2:3]
     elif not ctx.thorough:
-        scns = [scns[i] for i in (4, 11, 12)]
+        scns = [scns[i] for i in (4, 11, 12, 19)]
     traces = []
     nexec = 0
     for si, scn in enumerate(scns):
@@ -193,6 +201,22 @@ def schedules(ctx, only=None):
                                       dict(scenario=scn, schedule=[first, k1, k2]))
                         continue
                     traces.append(dict(id="x%d-%s-%d-%d" % (si, first, k1, k2), cfg=dict(run=scn["run"], q=scn["q"]), ev=log))
+        if ctx.thorough and si % 3 == 0:
+            # three pre-emptions: both threads inside / around their mutex sections
+            cw = [k for k in clk_points if max(0, pb.get("acq", 0) - 2) <= k <= pb.get("mark", nb) + 2][:14]
+            sw = [k for k in sock_points if max(0, pa.get("sacq", 0) - 2) <= k <= (pa.get("smark", na) or na) + 2][:14]
+            for first, r1, r2 in (("sock", sw, cw), ("clk", cw, sw)):
+                for k1 in r1:
+                    for k2 in r2:
+                        for k3 in (1, 2, 3, 5, 8):
+                            log, _, errs = one_schedule(scn, first, k1, k2, k3)
+                            nexec += 1
+                            if errs:
+                                ctx.violation(ctx.pid + "/schedule/exception/%s" % type(list(errs.values())[0]).__name__,
+                                              "exception %r in scenario %d schedule (%s,%d,%d,%d)" % (errs, si, first, k1, k2, k3),
+                                              dict(scenario=scn, schedule=[first, k1, k2, k3]))
+                                continue
+                            traces.append(dict(id="y%d-%s-%d-%d-%d" % (si, first, k1, k2, k3), cfg=dict(run=scn["run"], q=scn["q"]), ev=log))
         ctx.log("scenario %d: %d+%d line steps, %d executions so far" % (si, na, nb, nexec))
     ctx.extra["schedules_executed"] = nexec
     # identical event sequences need to be validated only once
